@@ -10,16 +10,32 @@ from __future__ import annotations
 import copy
 
 # --------------------------------------------------------------------------------------- C11
-# pool of submittable things: name -> ("task", ident) | ("wf", wf_ident, [node idents in order])
+# pool of submittable things: name -> ("task", ident) | ("wf", wf_ident, [node idents in order]);
+# a node ident that names a "wf" entry of the pool is a NESTED workflow (a workflow as a node)
 POOL = {
     "A": ("task", "A"),          # Cnt(x=1)
     "B": ("task", "B"),          # Cnt(x=2)
     "C": ("task", "C"),          # Dbl(x=1)
     "W": ("wf", "W", ["A", "B"]),  # Chain(x=1): a = Cnt(1) -> b = Cnt(a.out = 2)
     "S": ("wf", "S", ["A", "E"]),  # Cnt.split(x=[1, 7]) (implicit workflow); E = Cnt(x=7)
+    "N": ("wf", "N", ["W", "C"]),  # Outer(x=1): w = Chain(x=1) (a workflow as a node), c = Dbl(x=1)
 }
-IDENTS = ["A", "B", "C", "E", "W", "S"]
-EXPECTED_OUT = {"A": 2, "B": 3, "C": 2, "E": 8, "W": 3, "S": [2, 8]}
+IDENTS = ["A", "B", "C", "E", "W", "S", "N"]
+EXPECTED_OUT = {"A": 2, "B": 3, "C": 2, "E": 8, "W": 3, "S": [2, 8], "N": 3}
+
+
+def is_wf(ident):
+    return ident in POOL and POOL[ident][0] == "wf"
+
+
+def all_idents(name):
+    """the identity of a pool entry and of everything inside it (any depth)"""
+    entry = POOL[name]
+    out = [entry[1]]
+    if entry[0] == "wf":
+        for n in entry[2]:
+            out += all_idents(n) if is_wf(n) else [n]
+    return out
 COUNTED = ["A", "B", "C", "E"]  # identities whose body appends to the log
 
 
@@ -70,29 +86,21 @@ class CacheModel:
     def submit(self, name, root, ro, rerun, prop):
         """returns the list of events: ("exec", ident) | ("hit", ident, root_served_from)"""
         caches = [root] + list(ro)
-        entry = POOL[name]
         events = []
-        if entry[0] == "task":
-            ident = entry[1]
-            src = None if rerun else self.found(ident, caches)
-            if src is None:
-                self._execute(ident, root, events)
-            else:
-                events.append(("hit", ident, src))
-            return events
-        _, wf, nodes = entry
-        src = None if rerun else self.found(wf, caches)
-        if src is not None:
-            events.append(("hit", wf, src))
-            return events
-        for n in nodes:
-            nsrc = None if (rerun and prop) else self.found(n, caches)
-            if nsrc is None:
-                self._execute(n, root, events)
-            else:
-                events.append(("hit", n, nsrc))
-        self._execute(wf, root, events)
+        self._submit(POOL[name][1], is_wf(name), root, caches, rerun, prop, events)
         return events
+
+    def _submit(self, ident, wf, root, caches, rerun, prop, events):
+        """one job (task or workflow, at any nesting depth): served from a cache unless `rerun`;
+        the jobs inside a workflow see `rerun and prop` ("every task inside a workflow")"""
+        src = None if rerun else self.found(ident, caches)
+        if src is not None:
+            events.append(("hit", ident, src))
+            return
+        if wf:
+            for n in POOL[ident][2]:
+                self._submit(n, is_wf(n), root, caches, rerun and prop, prop, events)
+        self._execute(ident, root, events)
 
 
 # --------------------------------------------------------------------------------------- C13
